@@ -114,6 +114,58 @@ Definition create_allowed (fixed : bool) (mode : sl_mode) (path target : str) : 
   | SLPosixRaw => true
   end.
 
+(* transition.go, create / createDirectory: creation of a whole entry tree at
+   [path]. A directory's contents are created one by one at
+   fastpath.Joinable(path) + name; nested directories recurse through
+   createDirectory, nested links go through createSymbolicLink -- the same
+   function, hence the same rule, as a link that is itself the root of the
+   transition. (Files are irrelevant here and left out; filesystem operations
+   are taken to succeed.) *)
+Inductive ctree :=
+| CLink (target : str)
+| CDir (children : list (str * ctree)).
+
+Definition join_path (path name : str) : str :=
+  match path with [] => name | _ => path ++ c_slash :: name end.
+
+(* every link of the tree with the root-relative path it is created at *)
+Fixpoint links_of (path : str) (t : ctree) {struct t} : list (str * str) :=
+  match t with
+  | CLink target => [(path, target)]
+  | CDir cs =>
+      (fix go (l : list (str * ctree)) : list (str * str) :=
+         match l with
+         | [] => []
+         | (n, c) :: r => links_of (join_path path n) c ++ go r
+         end) cs
+  end.
+
+(* the links that exist after create(path, t), and the paths for which a
+   problem is recorded instead *)
+Fixpoint created_links (fixed : bool) (mode : sl_mode) (path : str) (t : ctree) {struct t}
+  : list (str * str) :=
+  match t with
+  | CLink target => if create_allowed fixed mode path target then [(path, target)] else []
+  | CDir cs =>
+      (fix go (l : list (str * ctree)) : list (str * str) :=
+         match l with
+         | [] => []
+         | (n, c) :: r => created_links fixed mode (join_path path n) c ++ go r
+         end) cs
+  end.
+
+Fixpoint link_problems (fixed : bool) (mode : sl_mode) (path : str) (t : ctree) {struct t}
+  : list str :=
+  match t with
+  | CLink target => if create_allowed fixed mode path target then [] else [path]
+  | CDir cs =>
+      (fix go (l : list (str * ctree)) : list str :=
+         match l with
+         | [] => []
+         | (n, c) :: r => link_problems fixed mode (join_path path n) c ++ go r
+         end) cs
+  end.
+
 (* ---------------------------------------------------------------- *)
 (* The specification: POSIX lexical resolution                       *)
 
